@@ -7,6 +7,16 @@ Import ListNotations.
 Open Scope Z_scope.
 
 Definition lin_ok (c : state -> Z) : Prop := forall s, c s <= 4 * weight s + 64.
+(* ... plus the configured limit (only CODE.RAND uses it) *)
+Definition linl_ok (c : state -> Z) : Prop := forall s, c s <= 4 * weight s + 64 + limits s.
+Lemma limits_nn s : 0 <= limits s.
+Proof. unfold limits. lia. Qed.
+Lemma lin_linl c : lin_ok c -> linl_ok c.
+Proof. intros H s. specialize (H s). pose proof (limits_nn s). lia. Qed.
+Lemma linl_code_rand : linl_ok c_code_rand.
+Proof.
+  intro s. unfold c_code_rand, limits. pose proof (weight_nn s). destruct (st_int s) as [|n r]; lia.
+Qed.
 Definition nlogn_ok (c : state -> Z) : Prop := forall s, c s <= weight s * (Z.log2 (weight s) + 2) + 64.
 Definition quad_ok (c : state -> Z) : Prop := forall s, c s <= weight s * weight s + 4 * weight s + 64.
 
@@ -236,7 +246,7 @@ Qed.
 (* ------------------------------------------------------------------ *)
 Definition entry_ok (e : string * (state -> Z)) : Prop :=
   match cost_class (fst e) with
-  | Linear => lin_ok (snd e)
+  | Linear => linl_ok (snd e)
   | NLogN => nlogn_ok (snd e)
   | Quadratic => quad_ok (snd e)
   | ByOperand => True
@@ -249,7 +259,7 @@ Lemma Forall_lens_entry_ok l :
 Proof.
   intros H C. induction H as [|e r He Hr IH]; [constructor|].
   cbn [forallb] in C. apply andb_prop in C as [C1 C2]. constructor; [|now apply IH].
-  unfold entry_ok. destruct (cost_class (fst e)); try discriminate. exact He.
+  unfold entry_ok. destruct (cost_class (fst e)); try discriminate. apply lin_linl, He.
 Qed.
 
 Ltac class_of_goal :=
@@ -262,14 +272,14 @@ Ltac class_of_goal :=
 Lemma cost_table_ok : Forall entry_ok cost_table.
 Proof.
   unfold cost_table.
-  repeat (apply Forall_cons; [class_of_goal; first [exact I|exact lin_from_int]|]).
+  repeat (apply Forall_cons; [class_of_goal; first [exact I|exact linl_code_rand|apply lin_linl; exact lin_from_int]|]).
   repeat (apply Forall_app; split;
           [apply Forall_lens_entry_ok;
            [first [apply lin_lens_bool|apply lin_lens_int|apply lin_lens_float|apply lin_lens_name|apply lin_lens_code
                   |apply lin_lens_exec|apply lin_lens_bvec|apply lin_lens_ivec|apply lin_lens_fvec]
            |vm_compute; reflexivity]|]).
   repeat (apply Forall_cons;
-          [class_of_goal;
+          [class_of_goal; try apply lin_linl;
            first [exact lin_flush_index|exact lin_flush_output|exact nlogn_sort_bvec|exact nlogn_sort_ivec|exact nlogn_sort_fvec
                  |exact quad_nest2_code|exact quad_nest2_exec|exact quad_subst|exact quad_code_print
                  |exact lin_code_definition|exact lin_exec_cmd|exact lin_list_get|exact lin_list_remove|exact lin_list_val
@@ -286,12 +296,12 @@ Proof.
   - right. reflexivity.
 Qed.
 
-Theorem cost_linear n s : cost_class n = Linear -> cost n s <= 4 * weight s + 64.
+Theorem cost_linear n s : cost_class n = Linear -> cost n s <= 4 * weight s + 64 + limits s.
 Proof.
   intro C. destruct (cost_lookup n) as [(c & Hin & E)|E]; rewrite E.
   - pose proof cost_table_ok as T. rewrite Forall_forall in T. specialize (T _ Hin).
     unfold entry_ok in T. cbn [fst snd] in T. rewrite C in T. apply T.
-  - apply lin_default.
+  - apply lin_linl, lin_default.
 Qed.
 
 Theorem cost_nlogn n s : cost_class n = NLogN -> cost n s <= weight s * (Z.log2 (weight s) + 2) + 64.
@@ -311,16 +321,17 @@ Proof.
 Qed.
 
 (* every instruction whose work is not controlled by an operand: a polynomial of degree two in the state *)
-Theorem cost_bounded n s : KnownUnbounded n = false -> cost n s <= weight s * weight s + 4 * weight s + 64.
+Theorem cost_bounded n s :
+  KnownUnbounded n = false -> cost n s <= weight s * weight s + 4 * weight s + 64 + limits s.
 Proof.
-  intro K. pose proof (weight_nn s).
+  intro K. pose proof (weight_nn s). pose proof (limits_nn s).
   destruct (cost_class n) eqn:C.
   - pose proof (cost_linear n s C). nia.
   - pose proof (cost_nlogn n s C).
     assert (Z.log2 (weight s) <= weight s).
     { destruct (Z.eq_dec (weight s) 0) as [->|]; [cbn; lia|]. pose proof (Z.log2_lt_lin (weight s)). lia. }
     nia.
-  - apply (cost_quadratic n s C).
+  - pose proof (cost_quadratic n s C). lia.
   - unfold cost_class in C. unfold KnownUnbounded in K. rewrite K in C.
     destruct (mem_str n nlogn_names); [discriminate|]. destruct (mem_str n quadratic_names); discriminate.
 Qed.
